@@ -200,6 +200,17 @@ class TRSpec(object):
             st.events.append(('pbout', pos[0]))
         return None
 
+    def lib(self, ex, st, name, pos, kw, node, star, dstar):
+        if name == 'builtins.dict' and len(pos) == 1 and not kw and not ex.is_kind(st, pos[0], 'dict'):
+            # dict(<arbitrary value returned by user code>): a new dict (U5: without the framework's reserved keys), or an ordinary error
+            d = st.alloc('dict'); dom = fresh('userdom', AVB); st.set_dcontents(d, dom, fresh('uservals', AVV))
+            for nm_ in ('DURATION', 'RECORDED_AT', 'OPERATION_CLASS', 'EXCEPTION_IN_OPERATION', 'INCOMPLETE_RECORDING'):
+                st.assume(z3.Not(dom[S(CONSTS[nm_])]))
+            s2 = st.copy(); e2 = s2.sym_exc(ordinary=True, label='exc_dict')
+            s2.trace.append(dict(kind='Lib', name='dict()', outcome=('raise', e2)))
+            return [(st, ('val', d)), (s2, ('exc', e2))]
+        return None
+
     def dict_update(self, ex, st, d, o, node):
         """metadata.update(<arbitrary value returned by the user's extractor>): total merge, or partial merge then an ordinary error
         (dict.update with junk is not atomic: observed natively)"""
@@ -466,6 +477,12 @@ class TRSpec(object):
                     if sO is not None: outs.append(finish(sO))          # ordinary: logged, skipped
                     if sB is not None: outs.append((sB, r))             # interrupt-style: propagates
                     continue
-                for s3, r3 in self.dict_update(ex, s2, md, r[1], node):
-                    outs.append(finish(s3))                             # an ordinary error of update() is swallowed as well
+                # the result is merged completely (U5: no reserved key), or -- junk -- not at all (proved: failing_extractor_adds_no_user_key)
+                s3 = s2.copy(); outs.append(finish(s3))
+                dom_, mp_ = s2.dcontents(md); added = fresh('added', AVB); uv = fresh('uservals', AVV)
+                for nm_ in ('DURATION', 'RECORDED_AT', 'OPERATION_CLASS', 'EXCEPTION_IN_OPERATION', 'INCOMPLETE_RECORDING'):
+                    s2.assume(z3.Not(added[S(CONSTS[nm_])]))
+                orf = z3.Or(z3.Bool('x'), z3.Bool('y')).decl(); ite = z3.If(z3.Bool('x'), fresh('u'), fresh('w')).decl()
+                s2.set_dcontents(md, z3.Map(orf, dom_, added), z3.Map(ite, added, uv, mp_))
+                outs.append(finish(s2))
         return outs
